@@ -54,8 +54,8 @@ for d in sorted(glob.glob(f"{wt}/_seeded/*/")):
         entry["checks"][cp] = {"exit": r.returncode, "keys": keys[:8], "wall_s": round(time.time() - t0), "tail": r.stdout.strip().splitlines()[-1:] }
     sh(f"git -C {wt} checkout -- src")
     res.append(entry)
-os.makedirs("/tmp/seed/results", exist_ok=True)
-json.dump(res, open(f"/tmp/seed/results/{pid}.json", "w"), indent=1)
+os.makedirs("/tmp/seed/results/final", exist_ok=True)
+json.dump(res, open(f"/tmp/seed/results/final/{pid}.json", "w"), indent=1)
 for e in res:
     print(pid, e["k"], "confirmed" if e.get("confirmed") else f"NOT-CONFIRMED({e.get('demo_clean_rc')},{e.get('demo_patched_rc')},{e.get('suite_patched')},{e.get('apply_error','')})",
           {cp: (c["exit"], c["keys"][:3]) for cp, c in e.get("checks", {}).items()}, "|", e["meta"].get("summary", "")[:110])
